@@ -1,5 +1,7 @@
 import LanceModel.C28.BlockLemmas
+import LanceModel.C28.MaskLemmas
 import LanceModel.C28.FsstLemmas
+import LanceModel.C28.GenTie
 /-!
 # C28 — property theorems
 
@@ -147,6 +149,18 @@ theorem C28_bitpacking : C28_bitpacking_full := by
     have hi : i < xs.size := by simpa using h1
     simp only [Array.getD_eq_getD_getElem?, Array.getElem?_eq_getElem hi, Option.getD_some] at this
     simp [Nat.mod_eq_of_lt this]
+
+/-- "values are masked to `w` bits otherwise": for `0 < w < T` the packed words depend only on the low `w` bits of
+every input value (`pack!` reads the input through `src & mask`); for `w = T` nothing is masked -/
+theorem pack_low_bits_only {T w : Nat} (hw : 0 < w) (hwT : w < T) (xs xs' out : Array Nat)
+    (hs : xs.size = xs'.size) (h : ∀ i, xs.getD i 0 % 2 ^ w = xs'.getD i 0 % 2 ^ w) :
+    pack T w xs out = pack T w xs' out := by
+  unfold pack
+  rw [packWrites_low_bits hw hwT xs xs' h, hs]
+
+example : (∀ i, (Array.replicate 1024 13).getD i 0 % 2 ^ 3 = (Array.replicate 1024 5).getD i 0 % 2 ^ 3) := by
+  intro i
+  by_cases h : i < 1024 <;> simp [Array.getD_eq_getD_getElem?, h]
 
 /-- `unchecked_unpack` writes only the 1024 cells of the block: a longer output slice keeps its tail -/
 theorem unpack_frame {T w : Nat} (hT : ValidT T) (hw : 0 < w) (hwT : w ≤ T) (packed out : Array Nat)
